@@ -58,7 +58,10 @@ def gen(seed, run, sub="clean", tier="quick"):
     err_rate = r.choice([0.0, 0.0, 0.15, 0.4])
     for i in range(n):
         if r.random() < err_rate:
-            replies[str(i)] = [r.choice(ERRS)]
+            e_ = r.choice(ERRS)
+            if r.random() < 0.4:       # any numeric code, not only the well-known ones
+                e_ = r.choice(["error:%d", "ALARM:%d", "error: %d", "Error:%d"]) % r.choice([0, 1, 9, 18, 20, 39, 60, 79, 99, 255])
+            replies[str(i)] = [e_]
     # a statement the device takes very long to acknowledge (homing, heating): longer than the
     # writer's 30 s default time-out, or than a time-out the caller configured
     slow = {}
@@ -120,6 +123,9 @@ def gen(seed, run, sub="clean", tier="quick"):
         "lane": "c16", "sub": sub, "transport": transport, "via": via, "cfg": cfg,
         "stmts": stmts, "replies": replies, "faults": faults, "ops": ops, "draws": draws,
         "readings": dict(readings, **UNSOL_READINGS), "slow": slow, "ctx": r.random() < 0.2,
+        "host": r.choice(["10.0.0.5", "10.0.0.5", "localhost", "cnc-router", "my-printer.local", "printer01.lab.example.com",
+                          "192.168.1.250"]),
+        "tcp_port": r.choice([8080, 8080, 23, 1, 65535]),
         "eol": r.choice(["\n", "\r\n", ""]), "max_steps": 60000,
         "sched": common.gen_sched(r, "%s/%s/c16" % (seed, run), est_steps=300 + 250 * n),
     }
@@ -200,10 +206,11 @@ def execute(scn, guide=None, keep=False, observer=None):
 
     def mk_writer():
         if scn["transport"] == "socket":
+            host, port = scn.get("host", "10.0.0.5"), int(scn.get("tcp_port", 8080))
             if scn["via"] == "delegate":
                 from gscrib.writers.socket_writer import SocketWriter
-                return SocketWriter("10.0.0.5", 8080)
-            return m["pw"].PrintrunWriter("socket", "10.0.0.5", "8080", 0)
+                return SocketWriter(host, port)
+            return m["pw"].PrintrunWriter("socket", host, str(port), 0)
         if scn["via"] == "delegate":
             from gscrib.writers.serial_writer import SerialWriter
             return SerialWriter("/dev/sim", 115200)
@@ -347,6 +354,12 @@ def execute(scn, guide=None, keep=False, observer=None):
     if ackev is None or not hasattr(ackev, "hist"):
         raise shims.HarnessError("seam moved: PrintrunWriter._ack_event")
     viol = check(scn, k, fw, hist, state, lost, DeviceError, hostmsgs, ackev.hist, relaxed=False)
+    if getattr(k, "unsettled", False) and not any(v["cls"] == "harness" for v in viol):
+        # the quiet period the clean lane is defined by could not be established (extreme stall
+        # profile): nothing can be concluded from this run
+        k.probe("obs.unsettled_run_skipped")
+        viol = []
+        observer = None
     findings = []
     if viol and scn.get("sub") == "d3":
         # finding lane: does the history show D3's mechanism, and does the reference model of
